@@ -34,6 +34,9 @@ def run(pid, tier, seed):
     mod = importlib.import_module(pid.lower())
     ctx = Ctx(pid, tier, seed)
     ctx.impl_opts = dict(getattr(mod, 'IMPL_OPTS', {}))
+    # no quick check needs more than a few minutes of implementation time per shard on the unchanged tree: a tree on which the cases
+    # crawl is reported (unanswered cases are abnormal answers) instead of being waited for
+    ctx.impl_opts.setdefault('deadline', 1500 if tier == 'quick' else None)
     rng = vlib.Rng(seed)
     broken = []          # proof obligations / tie that no longer check
     violations = []      # concrete failing inputs: dict(case=..., why=..., impl=...)
